@@ -372,7 +372,7 @@ def _norm_sub(ty):
 PRIM_SUBS = set(INTS)
 
 
-def flatten(items):
+def flatten(items, depth=0):
     """expand nested codecs of primitive / string types into the primitives they write (`Sub(u8)` == `Prim(U8)`)"""
     out = []
     for x in items:
@@ -380,9 +380,24 @@ def flatten(items):
             out.append(("w", x[1], ("label", x[2] or "self")))
         elif x[0] == "sub" and x[1] in ("String", "str") and x[2] is None:
             out.extend([("w", "var_i32", ("len", "utf8")), ("w", "bytes", ("payload", "utf8"))])
+        elif x[0] == "sub" and x[1] in COMPOSITE_SUBS and x[2] is not None and depth < 3:
+            # a nested codec with a single, tag-free layout is the same as writing its parts: delegating DateTime<Local>
+            # to the NaiveDateTime codec == writing the date and the time of the same local datetime
+            inner = []
+            for y in FORMAT[x[1]][0]:
+                if y[0] == "sub":
+                    inner.append(("sub", y[1], "%s<%s" % (y[2], x[2]) if y[2] else x[2]))
+                elif y[0] == "w" and y[2][0] == "label":
+                    inner.append(("w", y[1], ("label", "%s<%s" % (y[2][1], x[2]))))
+                else:
+                    inner.append(y)
+            out.extend(flatten(inner, depth + 1))
         else:
             out.append(x)
     return out
+
+
+COMPOSITE_SUBS = ("NaiveDateTime",)
 
 
 EQUIVALENT_GRAMMARS = {
@@ -779,6 +794,32 @@ ADAPTERS = ("Iterator::take", "Iterator::zip", "Iterator::take_while", "Iterator
             "Iterator::nth", "Iterator::last", "Iterator::count")
 
 
+def _probed_take(p, c):
+    """`stream.by_ref().take(n)` is exhaustive on this path when the path does not return Ok, or when after it either fewer
+    than n items were collected (`len != n`: take only stops early because the stream ended) or the stream itself was probed
+    once more and had ended (`stream.next()` is None)"""
+    recv = strip_refs(c[5][0])
+    if not (recv[0] == "call" and recv[1] == "Iterator::by_ref"):
+        return False
+    if p.outcome[0] != "return" or outcome_of(p)[0] != "ok":
+        return True
+    n = guards.norm(c[5][1])
+    i = p.events.index(c)
+    for e in p.events[i + 1:]:
+        if e[0] != "atom":
+            continue
+        cond, v = e[1], e[2]
+        if cond[0] == "bin" and cond[1] in ("Eq", "Ne", "Lt", "Ge") and guards.norm(cond[3]) == n and "len" in show(cond[2]).lower():
+            tv = guards.truth(v)
+            fewer = (not tv) if cond[1] in ("Eq", "Ge") else tv
+            if fewer:
+                return True
+        if cond[0] == "discr" and "DeserializerIterator<T> as Iterator>::next" in show(cond[1]) and \
+                "Take<" not in show(cond[1])[:40] and walk.atom_variant(e) == "None":
+            return True
+    return False
+
+
 def _check_seq_reader(R, G9, G8, s, rb, core):
     paths = walk.walk(rb, core)
     uses_iter = False
@@ -789,6 +830,8 @@ def _check_seq_reader(R, G9, G8, s, rb, core):
         for c in p.calls():
             if c[3] in ADAPTERS or c[2] in ADAPTERS or c[2].endswith(("::size_hint", "::take", "::zip")):
                 if any(_binder_of(a, d[1]) for d in di for a in c[5]):
+                    if c[3] == "Iterator::take" and _probed_take(p, c):
+                        continue
                     G9.fail("<%s as BinaryDeserializer>::deserialize" % s, "limited consumer " + c[2], "the element stream is "
                             "consumed through %s: surplus items or the terminator may stay unread" % c[2], mir.loc(rb, 0))
     R.check(uses_iter, "<%s>" % s, "reader uses deserialize_iterator", "SEQ reader does not go through deserialize_iterator", mir.loc(rb, 0))
@@ -823,6 +866,7 @@ def _check_seq_reader(R, G9, G8, s, rb, core):
         if p.outcome[0] == "return" and kind == "ok":
             # a for loop: the Ok exit must come after next() returned None
             ended = any(a[1][0] == "discr" and "as Iterator>::next" in show(a[1][1]) and walk.atom_variant(a) == "None" for a in p.atoms())
+            nexts = nexts or [c for c in p.calls() if c[2].endswith("as Iterator>::next")]
             G9.check(ended and len(nexts) >= 1, "<%s>" % s, "loop exit", "the reader can return Ok without exhausting the "
                      "element stream (a `break` / early Ok return)", mir.loc(rb, 0), sample={"type": s, "consumer": "for-loop until None"})
             ok_exits += 1
